@@ -17,14 +17,18 @@ TIE = ("TRANSLATION: lean/FcpptModel/Gen/Scalar.lean is regenerated from /repo's
        "(instantiated clang-14 JSON AST -> Lean over the fixed-width semantics of Prelude/CInt.lean) and every theorem is re-checked "
        "against it; CORRESPONDENCE: the generated definitions and the real templates run on the same inputs (exhaustive 8/16-bit)")
 RULE = ("range/list ops enumerate a domain on both sides and compare FNV digests (refined to single calls on a difference): all values of "
-        "every 8/16-bit source for truncation_check (64 type pairs) and the unary helpers, all 8-bit pairs for binary helpers, boundary "
+        "every 8/16-bit source for truncation_check (64 type pairs + bool destination + 20 pairs with long long / char / wchar_t / charN_t) "
+        "and the unary helpers and casts, all 8-bit pairs for binary helpers (incl. div and ceil_div_signed on the narrow types), boundary "
         "lattice (0, +-1, +-2, 2^k, 2^k+-1, min, max) and seeded random values for 32/64-bit, [0,255]^2 / [-128,127]^2 (quick) resp. "
-        "[0,2047]^2 / [-1024,1023]^2 (thorough) for ceil_div / ceil_div_signed, full 16-bit squares against a 128-bit oracle (thorough). "
+        "[0,2047]^2 / [-1024,1023]^2 (thorough) for ceil_div / ceil_div_signed, full 16-bit squares against a 128-bit oracle (thorough); "
+        "interval_distance: all quadruples over 13-value windows and the ends of every type; every binary/ternary function with ONE object "
+        "bound to all its reference parameters; compile-time helpers (mask_c, shifted_mask_c, ceil_div_static, enum_::size) on fixed tables. "
         "evaluations counts single function evaluations; an op is non-trivial if its domain has more than one point.")
 ASSUMPTIONS = [
     "LP64, two's complement, C++20 integer conversion rules as written in Prelude/CInt.lean (validated by this correspondence, not proved)",
-    "library primitives the translator treats as built in: fcppt::literal, optional::make_if/bind/map, cast::size/to_signed/to_unsigned, "
-    "numeric_limits::min/max, std::min/max/abs, int_to_enum, is_zero",
+    "library primitives the translator treats as built in: fcppt::literal, optional::make_if/bind/map, numeric_limits::min/max, "
+    "std::min/max/abs/swap, tuple::get, is_zero (cast::size/to_signed/to_unsigned/int_to_enum are translated from their bodies)",
+    "interval_distance on int32_t/int64_t is only run where every difference of two of the four operands is representable (both sides answer `guard` otherwise)",
     "enum_::size<Enum>::value enters the translated from_int as a parameter",
 ]
 TRUSTED = ["tools/cxx2lean.py (translator) and clang-14's AST of the instantiations", "harness/c06.cpp, digest protocol"]
@@ -91,7 +95,7 @@ def weight(op):
         if t[0] == "list3":
             return len(t[2].split(",")) ** 3
         if t[0] == "selfcheck":
-            return int(t[2])
+            return int(t[2]) if len(t) == 3 else (int(t[3]) - int(t[2]) + 1) * 65536
         if t[0] == "list4":
             return len(t[2].split(",")) ** 4
         if t[0] == "aliasl":
@@ -280,7 +284,10 @@ def batches(rng, tier):
     yield Batch("binary-random", ops, note="seeded random 32/64-bit operands, small and large divisors")
     yield from batches2(rng, tier)
     if thorough:
-        ops = [f"selfcheck {f} {65536 * 65536}" for f in ("diff_u16", "diff_i16", "mod_u16")]
+        ops = []
+        for f in ("diff_u16", "diff_i16", "mod_u16"):
+            base = -32768 if "_i16" in f else 0
+            ops += [f"selfcheck {f} {base + r} {base + r + 2047}" for r in range(0, 65536, 2048)]     # 32 lines of 2048 rows each
         yield Batch("full-16bit-squares", ops, exhaustive=True, note="all 2^32 operand pairs of the 16-bit instantiation against the harness' 128-bit oracle")
         ops = []
         for f, t in [("mod", "u16"), ("diff", "u16"), ("diff", "i16"), ("bit_test", "u16")]:
@@ -587,10 +594,13 @@ def search(binp, rng, tier):
 
 MANIFEST = {
     "level_text": ("Machine-checked proof (Lean 4) about definitions that are *regenerated from the C++ source on every run* (clang AST of the "
-                   "instantiated templates -> Lean): truncation_check for all 64 (destination, source) pairs of the 8 fixed-width types, "
-                   "enum_::from_int (16 instantiations), ceil_div, ceil_div_signed (all sign combinations), div, mod, clamp, diff, log2, "
-                   "power_of_2, shifted_mask, bit::test, is_power_of_2, next_power_of_2 return exactly the mathematical result whenever it "
-                   "is representable and never fault; zero divisor / empty interval give none. A code change alters the generated "
+                   "instantiated templates -> Lean): truncation_check for all 64 (destination, source) pairs of the 8 fixed-width types and "
+                   "for bool destinations, enum_::from_int (24 instantiations incl. enums over int / signed char), ceil_div, ceil_div_signed "
+                   "(8..64 bit, all sign combinations), div (all widths and mixed operand types), mod, clamp, diff, log2, "
+                   "power_of_2, shifted_mask, mask_c, shifted_mask_c, bit::test, is_power_of_2, next_power_of_2 return exactly the "
+                   "mathematical result whenever it is representable and never fault; zero divisor / empty interval give none; the unchecked "
+                   "casts size / to_signed / to_unsigned are the modular conversion, safe_numeric / promote_int the identity; "
+                   "interval_distance equals an explicit closed form; 66 corollaries relate the helpers to each other. A code change alters the generated "
                    "definitions and the kernel re-checks every theorem; the generated definitions are additionally run against the real "
                    "templates (exhaustive 8/16-bit domains, lattices, the squares named in the property)."),
     "level_note": ("Trusted: Lean kernel + propext/Classical.choice/Quot.sound; tools/cxx2lean.py and the C++ integer semantics in "
